@@ -28,7 +28,8 @@ ASSUMPTIONS = [
     "nearest-neighbour ties are excluded (the number excluded is reported)",
     "grids have at least 2 samples per axis in the theorems (n = 1 axes are exercised by the correspondence only)",
 ]
-TRUSTED = ["Model/{TorchPrim,Sample}.lean hand transcription of core/image.py grid_sample, data/image.py ImageBatch.sample",
+TRUSTED = ["Model/{TorchPrim,Sample}.lean hand transcription of core/image.py grid_sample, data/image.py ImageBatch.sample, "
+           "modules/sample.py SampleImage._matrix / AlignImage / TransformImage (identity transform), core/grid.py Grid.points",
            "SimpleITK (independent oracle for the ITK specification Itk.physToIdx/idxToPhys and for Resample)"]
 
 
@@ -85,6 +86,8 @@ def _run_sample(c):
         from deepali.modules import AlignImage, TransformImage
         cls = AlignImage if api == "module_align" else TransformImage
         axes = [None, Axes.CUBE, Axes.CUBE_CORNERS, Axes.WORLD, Axes.GRID][c["seed"] % 5]
+        if "axes" in c:
+            axes = None if c["axes"] is None else Axes(c["axes"])
         m = cls(gt, gs, axes=axes, sampling=c["mode"], padding=padding)
         out = m(None, torch.stack([image_values(c["seed"] + 1, gs.shape), data]))
         return out[1, 0], gt, gs, gt, data
@@ -173,6 +176,60 @@ def cmp_on_grid(c, r, out):
     return close(vals, m, RTOL32, max(r["amax"], abs(c["c"] or 0)))
 
 
+# ---------------------------------------------------------------- stream: module entry points, every axes choice
+MODULE_AXES = [None, "cube", "cube_corners", "world", "grid"]
+
+
+def gen_module(rng: random.Random, tier: str):
+    """AlignImage / TransformImage with the identity transform: {5 axes choices} x {2 classes} enumerated cyclically over
+    random overlapping oriented grid pairs (independent align_corners flags of source and target)."""
+    combos = [(a, k) for a in MODULE_AXES for k in ("align", "transform")]
+    for n in range(_n(tier, 40, 1000)):
+        d = rng.choice([2, 2, 3])
+        src, tgt = overlapping_pair(rng, d, max_size=5 if d == 3 else 7)
+        src_none = False
+        if rng.random() < 0.1:
+            tgt = dict(src)          # equal geometry: `Grid.transform` takes its same-grid branch table
+            if rng.random() < 0.5:
+                tgt["align_corners"] = not src["align_corners"]   # `Grid.__eq__` ignores the flag
+            else:
+                src_none = rng.random() < 0.5                    # source=None -> the target grid itself
+        axes, cls = combos[n % len(combos)]
+        pad = rng.choice(["zeros", "border", "const"])
+        yield {"src": src, "tgt": tgt, "axes": axes, "cls": cls, "src_none": src_none,
+               "mode": rng.choice(["linear", "linear", "linear", "linear", "nearest"]), "pad": pad,
+               "c": rng.choice([3.0, -1.5, 7.0]) if pad == "const" else None,
+               "seed": rng.randrange(1 << 30), "slot": rng.randrange(2)}
+
+
+def impl_module(c):
+    from deepali.modules import AlignImage, TransformImage
+    gs, gt = gen.make_grid(c["src"]), gen.make_grid(c["tgt"])
+    data = image_values(c["seed"], gs.shape)
+    decoy = image_values(c["seed"] + 1, gs.shape)
+    padding = c["c"] if c["pad"] == "const" else c["pad"]
+    cls = AlignImage if c["cls"] == "align" else TransformImage
+    axes = None if c["axes"] is None else Axes(c["axes"])
+    m = cls(gt, None if c["src_none"] else gs, axes=axes, sampling=c["mode"], padding=padding)
+    batch = [decoy, decoy]
+    batch[c["slot"]] = data
+    out = m(None, torch.stack(batch))
+    vals = out[c["slot"], 0]
+    if list(vals.shape) != list(gt.shape):
+        return f"err:shape:{list(vals.shape)}"
+    return {"values": proto.flat(vals), "amax": float(data.abs().max())}
+
+
+def line_module(c):
+    gs, gt = gen.make_grid(c["src"]), gen.make_grid(c["tgt"])
+    data = image_values(c["seed"], gs.shape)
+    pad = f"const:{proto.fr(c['c'])}" if c["pad"] == "const" else c["pad"]
+    mode = "lin" if c["mode"] == "linear" else "nearest"
+    # 12 = the decimals `Grid.points` rounds CUBE_CORNERS points to (apply_transform default)
+    return (f"sample.module {gs.ndim} {proto.grid(gs)} {proto.grid(gt)} {c['axes'] or 'none'} {mode} {pad} 12 "
+            f"{proto.vec(proto.flat(data[0]))}")
+
+
 # ---------------------------------------------------------------- stream: ITK spec validated by SimpleITK
 def gen_spec(rng: random.Random, tier: str):
     for _ in range(_n(tier, 60, 2000)):
@@ -224,6 +281,12 @@ STREAMS = PRIM_STREAMS + [
            nontrivial=lambda c: gen.grid_nontrivial(c["src"]) and c["src"] != c["tgt"],
            doc="Image/ImageBatch.sample(grid) values for random oriented grid pairs x {linear,nearest} x "
                "{zeros,border,constant c} x {Image, batch 1, batch N shared/per-image grids, AlignImage/TransformImage modules with every axes choice} vs the model pipeline"),
+    Stream("sample.module", gen_module, impl_module, line_module, cmp_on_grid,
+           nontrivial=lambda c: gen.grid_nontrivial(c["src"]) and c["src"] != c["tgt"],
+           doc="AlignImage/TransformImage(target, source, axes)(None, batch) values for random oriented grid pairs x "
+               "axes {None,cube,cube_corners,world,grid} x {AlignImage,TransformImage} x {linear,nearest} x "
+               "{zeros,border,constant c}, batch of 2 with a decoy, incl. source == target / source=None, vs the model "
+               "of Grid.points(axes) + SampleImage._matrix + grid_sample(align_corners=target flag)"),
     Stream("itk.spec", gen_spec, impl_spec, line_spec, cmp_spec,
            nontrivial=lambda c: gen.grid_nontrivial(c["src"]),
            doc="the model's ITK specification (continuous index maps) vs SimpleITK and vs deepali's own maps"),
@@ -327,10 +390,70 @@ def check_coords_vs_grid(c):
     return None
 
 
+def gen_singleton(rng: random.Random, tier: str):
+    """single-slice volumes: one axis of the source (and the coplanar target) has ONE sample; doors x axes x padding x
+    both flags are enumerated (so that every listed finding is visited on every run), geometry is random"""
+    eye = [[1.0, 0.0, 0.0], [0.0, 1.0, 0.0], [0.0, 0.0, 1.0]]
+    for _ in range(_n(tier, 1, 8, 2)):
+        for api in ("image", "batch1", "module_align", "module_transform"):
+            # explicit CUBE_CORNERS axes are not requested: they are undefined for a one-sample axis (2/(n-1));
+            # None lets the library choose (Axes.from_grid(target))
+            for axes in ([None, "cube", "world", "grid"] if api.startswith("module") else [None]):
+                for pad in ("zeros", "border"):
+                    for src_ac in (True, False):
+                        for tgt_ac in (True, False):
+                            ax = rng.randrange(3)
+                            size = [rng.randint(3, 6) for _ in range(3)]
+                            size[ax] = 1
+                            spacing = [round(rng.uniform(0.5, 2.0), 2) for _ in range(3)]
+                            tsize = [rng.randint(2, 5) for _ in range(3)]
+                            tsize[ax] = 1
+                            tsp = [round(rng.uniform(0.6, 1.2) * s_, 2) for s_ in spacing]
+                            tsp[ax] = spacing[ax]
+                            yield {"src": {"size": size, "spacing": spacing, "center": [1.0, -2.0, 0.5], "align_corners": src_ac,
+                                           "direction": eye},
+                                   "tgt": {"size": tsize, "spacing": tsp, "center": [1.0, -2.0, 0.5], "align_corners": tgt_ac,
+                                           "direction": eye},
+                                   "mode": "linear", "pad": pad, "c": None, "seed": rng.randrange(1 << 30), "api": api, "axis": ax,
+                                   "axes": axes}
+
+
+def check_singleton(c):
+    vals, g_out, gs, gt, data = _run_sample(c)
+    if list(vals.shape) != list(gt.shape):
+        return ("C05:singleton-axis:shape", f"result shape {list(vals.shape)} for target grid shape {list(gt.shape)}")
+    # reference: the in-plane problem (drop the singleton axis), resampled by SimpleITK
+    keep = [i for i in range(3) if i != c["axis"]]
+    sub = lambda g: Grid(size=[int(g.size()[i]) for i in keep], spacing=[float(g.spacing()[i]) for i in keep],   # noqa: E731
+                         center=[float(g.center()[i]) for i in keep])
+    gs2, gt2 = sub(gs), sub(gt)
+    im = sitk.GetImageFromArray(data[0].squeeze(2 - c["axis"]).numpy().astype(np.float32))
+    im.CopyInformation(_sitk_header(gs2))
+    res = sitk.Resample(im, _sitk_header(gt2), sitk.Transform(), sitk.sitkLinear, 0.0, sitk.sitkFloat32)
+    want = torch.from_numpy(sitk.GetArrayFromImage(res)).float().unsqueeze(2 - c["axis"])
+    idx = gt2.coords(normalize=False, dtype=torch.float64)
+    ci = gs2.world_to_index(gt2.index_to_world(idx, decimals=None).double(), decimals=None).double()
+    n = torch.tensor([float(v) for v in gs2.size()], dtype=torch.float64)
+    inside = ((ci >= 1e-3) & (ci <= n - 1 - 1e-3)).all(-1).unsqueeze(2 - c["axis"])
+    if inside.sum() == 0:
+        return None
+    err = float((vals - want).abs()[inside].max()) if torch.isfinite(vals).all() else float("inf")
+    if err > 1e-3 * max(1.0, float(data.abs().max())):
+        door = f"module:axes={c['axes'] or 'default'}" if c["api"].startswith("module") else "sample"
+        flag = gt.align_corners() if c["api"].startswith("module") else gs.align_corners()
+        return (f"C05:singleton-axis:{door}:{c['pad']}:align_corners={flag}",
+                f"single-slice volume (axis {c['axis']} has one sample): {c['api']} differs from the in-plane ITK resampling by "
+                f"{err:.3e} over {int(inside.sum())} inside samples (source flag {gs.align_corners()}, target flag {gt.align_corners()})")
+    return None
+
+
 ORACLES = [
     Oracle("itk", gen_itk, check_itk, nontrivial=lambda c: gen.grid_nontrivial(c["src"]),
            doc="deepali sample (Image, ImageBatch, AlignImage/TransformImage modules) vs SimpleITK.Resample(identity) at target samples inside the source field of view"),
     Oracle("self", gen_self, check_self, doc="sampling on own / equal grid / own coords returns the image"),
+    Oracle("singleton", gen_singleton, check_singleton,
+           doc="single-slice volumes (one axis with ONE sample, coplanar target): Image / ImageBatch.sample and the modules vs the "
+               "in-plane ITK resampling"),
     Oracle("coords_vs_grid", gen_coords_vs_grid, check_coords_vs_grid,
            doc="sampling at explicit normalised coordinates == sampling on the grid they came from"),
 ]
